@@ -231,6 +231,17 @@ macro_rules! ark_checks {
                         }
                     }
                 }
+                // From<BigInt<N>> on any N-limb integer: whatever it returns denotes the integer modulo m (the
+                // upstream trait panics above the modulus; the crate reduces)
+                if 64 * $NL >= v.0.bits() as usize {
+                    let bi = to_bigint(&v.0);
+                    if let Ok(x) = std::panic::catch_unwind(move || <$T>::from(bi)) {
+                        let want = &v.0 % &f.m;
+                        if N::from_bytes_le(&x.to_bytes_le()) != want {
+                            fail(ctx, tag, "From<BigInt>", format!("{:x} -> {} but the integer modulo m is {want:x}", v.0, hex::encode(x.to_bytes_le())))?;
+                        }
+                    }
+                }
                 // stream deserialisers accept exactly the canonical strings
                 let des: [(&str, Result<$T, ark_serialize::SerializationError>); 4] = [
                     ("deserialize_compressed", <$T>::deserialize_compressed(&bytes[..])),
